@@ -181,3 +181,115 @@ func (st *state) slOp(toks []string) (string, string) {
 	}
 	return "bad-op", ""
 }
+
+// slz ops: a real zset.SortedSet driven through its exported methods; the dump is the one of its
+// own skiplist (same format as the sl ops).
+
+func (st *state) slzDump() (s string) {
+	defer func() {
+		if r := recover(); r != nil {
+			s = "panic"
+		}
+	}()
+	return st.slz.VerifDumpSL()
+}
+
+func (st *state) slzMut(f func() string) string {
+	res := func() (s string) {
+		defer func() {
+			if r := recover(); r != nil {
+				s = "panic"
+			}
+		}()
+		return f()
+	}()
+	return res + " ; " + st.slzDump()
+}
+
+func (st *state) slzOp(toks []string) (string, string) {
+	if len(toks) < 2 {
+		return "bad-op", ""
+	}
+	args := toks[2:]
+	if toks[1] == "new" {
+		if len(args) != 0 {
+			return "bad-op", ""
+		}
+		return st.slzMut(func() string { st.slz = zset.NewSortedSet(); return "ok" }), ""
+	}
+	if st.slz == nil {
+		st.slz = zset.NewSortedSet()
+	}
+	switch toks[1] {
+	case "dump":
+		if len(args) != 0 {
+			return "bad-op", ""
+		}
+		return "ok ; " + st.slzDump(), ""
+	case "ZAdd":
+		if len(args) != 2 {
+			return "bad-op", ""
+		}
+		m, ok1 := slMember(args[0])
+		s, ok2 := slScore(args[1])
+		if !ok1 || !ok2 {
+			return "bad-op", ""
+		}
+		out := st.slzMut(func() string { return strconv.FormatInt(st.slz.ZAdd(m, s), 10) })
+		ann := slQuery(func() string { return fmt.Sprintf(" lvl=%d", st.slz.VerifHeightOf(m)) })
+		if ann == "panic" {
+			ann = " lvl=0"
+		}
+		return out, ann
+	case "ZRem":
+		if len(args) < 1 {
+			return "bad-op", ""
+		}
+		ms := make([]string, len(args))
+		for i, a := range args {
+			m, ok := slMember(a)
+			if !ok {
+				return "bad-op", ""
+			}
+			ms[i] = m
+		}
+		return st.slzMut(func() string { return strconv.FormatInt(st.slz.ZRem(ms...), 10) }), ""
+	case "ZRemRangeByScore":
+		if len(args) != 3 {
+			return "bad-op", ""
+		}
+		lo, ok1 := slScore(args[0])
+		hi, ok2 := slScore(args[1])
+		mode, ok3 := slInt(args[2])
+		if !ok1 || !ok2 || !ok3 {
+			return "bad-op", ""
+		}
+		return st.slzMut(func() string { return strconv.FormatInt(st.slz.ZRemRangeByScore(lo, hi, int(mode)), 10) }), ""
+	case "ZRemRangeByRank":
+		if len(args) != 2 {
+			return "bad-op", ""
+		}
+		start, ok1 := slInt(args[0])
+		stop, ok2 := slInt(args[1])
+		if !ok1 || !ok2 {
+			return "bad-op", ""
+		}
+		return st.slzMut(func() string { return strconv.FormatInt(st.slz.ZRemRangeByRank(start, stop), 10) }), ""
+	case "ZRank":
+		if len(args) != 1 {
+			return "bad-op", ""
+		}
+		m, ok := slMember(args[0])
+		if !ok {
+			return "bad-op", ""
+		}
+		return slQuery(func() string {
+			r, err := st.slz.ZRank(m)
+			if err != nil {
+				return "nil"
+			}
+			return strconv.FormatInt(r, 10)
+		}), ""
+	}
+	return "bad-op", ""
+}
